@@ -383,6 +383,61 @@ class EncEval:
                             emit(("lit", ord(ch)))
                     else:
                         raise EncOpaque("push_str of a value that is neither a literal nor the argument")
+                elif pure_call(self, names, args) is not None:
+                    handled, res = True, pure_call(self, names, args)
+                elif has("Iterator::flat_map", "Iterator::map") and len(args) == 2 and args[0][0] == "chars" and len(args[0]) == 2 and args[1][0] in ("fnitem", "closure"):
+                    handled, res = True, ("chars", args[0][1], ("flat" if has("Iterator::flat_map") else "map", args[1]))
+                elif has("Extend::extend", "String::extend") and len(args) == 2 and args[0] == OUT:
+                    handled = True
+                    v = args[1]
+                    items = seq_items(v)
+                    if items is not None:
+                        for it in items:
+                            if it[0] == "int":
+                                emit(("lit", it[1]))
+                            elif it[0] == "cell" and loop is not None and loop["cur"] == it[1]:
+                                emit(("cell",))
+                            else:
+                                raise EncOpaque("extend with an item that is neither a literal nor the current character")
+                    elif v[0] == "chars":
+                        # `out.extend(argument.chars().flat_map(f))`: the image of every character is what `f` yields for it
+                        if argmap is not None or whole_arg or any(l[1] for l in loops) or loop is not None:
+                            raise EncOpaque("the argument is written out twice")
+                        kept = set(self.iter_cells(v, S))
+                        am = {}
+                        for c in S:
+                            if c not in kept:
+                                am[c] = ()
+                                continue
+                            if len(v) == 2:
+                                am[c] = (("cell",),)
+                                continue
+                            kind, fv = v[2]
+                            fb = None
+                            for tid in ((fv[1], fv[2]) if fv[0] == "fnitem" else (fv[1],)):
+                                if tid in self.prog.bodies:
+                                    fb = self.prog.bodies[tid]
+                                    break
+                            if fb is None:
+                                raise EncOpaque("mapping function not found")
+                            fargs = [("cell", c)] if fb.kind != "Closure" else [UNK, ("cell", c)]
+                            r = eval_helper(self, fb, fargs)
+                            its = seq_items(r) if kind == "flat" else ([r] if r[0] in ("cell", "int") else None)
+                            if its is None:
+                                raise EncOpaque("mapping function yields a value the abstraction does not model")
+                            img = []
+                            for it in its:
+                                if it[0] == "int":
+                                    img.append(("lit", it[1]))
+                                elif it == ("cell", c):
+                                    img.append(("cell",))
+                                else:
+                                    raise EncOpaque("mapping function yields another character")
+                            am[c] = tuple(img)
+                        whole_arg = True
+                        argmap = am
+                    else:
+                        raise EncOpaque("extend with a value the abstraction does not model")
                 elif has("<impl str>::replace") and len(args) == 3 and args[0] in (ARG, OUT):
                     # `value.replace(pat, "..")`: every character the pattern matches becomes the constant text; applied to the
                     # buffer of an earlier replace it rewrites that buffer's images (literals and characters alike)
@@ -411,7 +466,7 @@ class EncEval:
                 elif names & set(OWNING) and args and args[0] == ARG:
                     handled, res = True, OUT
                     emit(("arg",))
-                elif has(*PASS_THROUGH) and args and args[0][0] in ("set", "arg", "out", "cow", "chars", "closure", "fnitem"):
+                elif has(*PASS_THROUGH) and args and args[0][0] in ("set", "arg", "out", "cow", "chars", "closure", "fnitem", "opt", "seq"):
                     handled, res = True, args[0]
                 else:
                     tgt = None
@@ -459,6 +514,11 @@ class EncEval:
                 return ("cow", self.read_op(env, rv["ops"][0]))
             if rv.get("agg") == "tuple":
                 return ("tuple", [self.read_op(env, o) for o in rv["ops"]])
+            if rv.get("agg") == "adt" and norm(rv.get("adt_name") or "").endswith("option::Option"):
+                if rv.get("variant") == "Some" and len(rv["ops"]) == 1:
+                    return ("opt", self.read_op(env, rv["ops"][0]))
+                if rv.get("variant") == "None":
+                    return ("opt", None)
             return UNK
         if k == "unop":
             a = self.read_op(env, rv["a"])
@@ -509,6 +569,97 @@ class EncEval:
                 return ("bool", {"BitAnd": a[1] and b[1], "BitOr": a[1] or b[1], "BitXor": a[1] != b[1]}[op])
             return UNK
         return UNK
+
+
+def seq_items(v):
+    """items of an Option / chained iterator value, or None"""
+    if v[0] == "opt":
+        return [] if v[1] is None else [v[1]]
+    if v[0] == "seq":
+        return list(v[1])
+    return None
+
+
+def pure_call(ev, names, args):
+    """value of a call that only builds small iterator values out of characters (`b.then_some(x)`, `opt.into_iter()`,
+    `a.chain(b)`, `iter::once(x)`), or None when the call is something else"""
+    def has(*suffixes):
+        return any(n.endswith(sfx) for n in names for sfx in suffixes)
+    if has("<impl bool>::then_some") and len(args) == 2 and args[0][0] == "bool":
+        return ("opt", args[1] if args[0][1] else None)
+    if has("Iterator::chain") and len(args) == 2 and seq_items(args[0]) is not None and seq_items(args[1]) is not None:
+        return ("seq", tuple(seq_items(args[0]) + seq_items(args[1])))
+    if has("iter::sources::once::once", "iter::once") and len(args) == 1:
+        return ("seq", (args[0],))
+    if has("IntoIterator::into_iter") and args and args[0][0] in ("opt", "seq"):
+        return args[0]
+    return None
+
+
+def eval_helper(ev, body, argvals, depth=0):
+    """value returned by a small workspace helper `fn(char) -> impl Iterator<Item = char> | char | Option<char>` for a character of
+    a given class: straight-line / branching code over character predicates and the pure calls above"""
+    if depth > 4:
+        raise EncOpaque("helper recursion")
+    env = {i + 1: v for i, v in enumerate(argvals)}
+    bb = 0
+    for _ in range(2000):
+        blk = body.blocks[bb]
+        for s in blk["s"]:
+            if s["k"] == "assign" and not s["place"]["p"]:
+                env[s["place"]["l"]] = ev._rvalue(env, s["rv"])
+        t = blk["t"]
+        k = t["k"]
+        if k == "goto":
+            bb = t["target"]
+        elif k in ("drop", "assert") and t.get("target") is not None:
+            bb = t["target"]
+        elif k == "return":
+            return env.get(0, UNK)
+        elif k == "switch":
+            d = ev.read_op(env, t["discr"])
+            if d[0] == "bool":
+                val = 1 if d[1] else 0
+            elif d[0] == "int":
+                val = d[1]
+            elif d[0] == "cell":
+                lo, hi = d[1]
+                hit = [v for v, _ in t["targets"] if lo <= v <= hi]
+                if hit and lo != hi:
+                    raise EncOpaque("class straddles a match value")
+                val = hit[0] if hit else None
+            else:
+                raise EncOpaque("helper branches on a value the abstraction does not determine")
+            nxt = [b2 for v, b2 in t["targets"] if v == val]
+            bb = nxt[0] if nxt else t["otherwise"]
+        elif k == "call":
+            f = callee(t)
+            if f is None or t.get("target") is None:
+                raise EncOpaque("helper: indirect or diverging call")
+            names = {norm(f["name"])}
+            if f.get("inst_name"):
+                names.add(norm(f["inst_name"]))
+            args = [ev.read_op(env, a) for a in t["args"]]
+            res = pure_call(ev, names, args)
+            if res is None:
+                tgt = None
+                for tid in (f.get("inst"), f["def"]):
+                    if tid in ev.prog.bodies:
+                        tgt = ev.prog.bodies[tid]
+                        break
+                cellargs = [a for a in args if a[0] == "cell"]
+                if tgt is not None and len(args) == 1 and len(cellargs) == 1 and "bool" in tgt.local_ty(0):
+                    res = ("bool", pred_on_cell(ev.prog, tgt, cellargs[0][1]))
+                elif tgt is not None and len(args) == 1 and len(cellargs) == 1:
+                    res = eval_helper(ev, tgt, args, depth + 1)
+                else:
+                    raise EncOpaque("helper calls %s, which the abstraction does not model" % sorted(names)[0])
+            if t["dest"] is not None and not t["dest"]["p"]:
+                env[t["dest"]["l"]] = res
+            bb = t["target"]
+        else:
+            raise EncOpaque("helper terminator %s" % k)
+    raise EncOpaque("helper does not terminate abstractly")
 
 
 def transducer(prog, body, S, cells):
